@@ -8,5 +8,7 @@ Items == { <<"i">>, <<"i", "j">> }
 AllOps == {"text", "field", "blist", "elist", "directive", "option", "set_title", "clear", "to_text"}
 NoTitleOps == AllOps \ {"set_title", "elist"}
 \* growth beyond C20: section() and doctest() (conformance only)
+\* five directives deep (indent levels beyond what the pipeline itself produces)
+DeepOps == {"directive", "text", "field", "option", "to_text"}
 GrowthOps == {"text", "directive", "doctest", "section", "field", "to_text"}
 =============================================================================
